@@ -2,6 +2,7 @@ CONSTANTS
   TraceFile = "trace.ndjson"
   VerdictFile = "verdicts.ndjson"
   SwResetCanCatchField = TRUE
+  SwResetCanCatchElem = TRUE
   SwResetExitFieldP = TRUE
   SwResetExitFieldV = TRUE
   SwResetExitElemP = TRUE
